@@ -6,7 +6,7 @@ PROPS = {
     'C02': ['contracts.c12_cbc_check', 'contracts.recordlayer', 'contracts.m2_recordlayer', 'contracts.m2_recordio', 'contracts.m2_getmsg', 'contracts.defragmenter', 'contracts.ciphers'],
     'C18': ['contracts.sessioncache'],
     'C19': ['contracts.settings', 'contracts.m2_server'],
-    'C20': ['contracts.suites', 'contracts.m2_client'],
+    'C20': ['contracts.suites', 'contracts.m2_client', 'contracts.m2_server'],
     'C03': ['contracts.suites', 'contracts.m2_client', 'contracts.m2_server', 'contracts.m2_keyschedule', 'contracts.m2_tls13_states', 'contracts.m2_exporter'],
     'C05': ['contracts.m2_client13', 'contracts.m2_client', 'contracts.m2_posthandshake', 'contracts.m2_server', 'contracts.m2_signverify', 'contracts.m2_binders', 'contracts.m2_server13'],
     'C04': ['contracts.m2_client', 'contracts.m2_getmsg', 'contracts.m2_server', 'contracts.m2_keyschedule', 'contracts.m2_binders'],
